@@ -81,6 +81,9 @@ func newStealer(name string, mapDesc bool) *stealer {
 		base = ".work"
 	}
 	d := fmt.Sprintf("%s/steal/%s-%s-%v", base, rep.Part(), name, mapDesc)
+	if sd := os.Getenv("VERIF_STEAL"); sd != "" {
+		d = fmt.Sprintf("%s/%s-%s-%v", sd, rep.Part(), name, mapDesc)
+	}
 	_ = os.MkdirAll(d, 0o755)
 
 	return &stealer{dir: d, shard: shard, nshards: n}
